@@ -243,6 +243,66 @@ func c19(r *core.Run) {
 	matcherParts(r, "C19.ONE2ONE", "C19.THRESH")
 	c19Sym(r)
 	c19Range(r)
+	// the greedy pairing takes candidates best-first: the candidate list is sorted by similarity DESCENDING before
+	// it is walked, so a renamed function is paired with its best match, not with a barely-similar bystander
+	nSort := 0
+	for _, fn := range matcherFuncs(p) {
+		core.InstrsOf(fn, func(in ssa.Instruction) {
+			c, ok := in.(*ssa.Call)
+			if !ok {
+				return
+			}
+			name := core.CalleeName(&c.Call)
+			if name != "sort.Slice" && name != "sort.SliceStable" {
+				return
+			}
+			sl, isSl := core.Unwrap(c.Call.Args[0]).Type().Underlying().(*types.Slice)
+			if !isSl || !strings.HasSuffix(sl.Elem().String(), "candidate") {
+				return
+			}
+			less := closureFunc(c.Call.Args[1])
+			if less == nil || len(less.Params) < 2 {
+				return
+			}
+			nSort++
+			pi, pj := ssa.Value(less.Params[len(less.Params)-2]), ssa.Value(less.Params[len(less.Params)-1])
+			side := func(v ssa.Value) int {
+				base, _, ok := fieldLoadBy(core.Unwrap(v), isFloat64)
+				if !ok {
+					return -1
+				}
+				if ia, isIA := base.(*ssa.IndexAddr); isIA {
+					switch ia.Index {
+					case pi:
+						return 0
+					case pj:
+						return 1
+					}
+				}
+				return -1
+			}
+			verdict := ""
+			for _, ret := range core.Returns(less) {
+				b, isB := ret.Results[0].(*ssa.BinOp)
+				if !isB {
+					continue
+				}
+				a, bb := side(b.X), side(b.Y)
+				if a < 0 || bb < 0 || a == bb {
+					continue
+				}
+				desc := (b.Op == token.GTR && a == 0) || (b.Op == token.LSS && a == 1)
+				if desc && verdict == "" {
+					verdict = "desc"
+				}
+				if !desc {
+					verdict = "not-desc:" + b.Op.String()
+				}
+			}
+			r.Check(verdict == "desc", "C19.ORDER", core.FuncName(fn)+"#candidates-best-first", c.Pos(), "rename candidates are sorted by descending similarity before the greedy pass", "rename candidates are not sorted by descending similarity ("+verdict+"): the greedy pass pairs the least similar admissible candidates first, so a renamed function is paired with a look-alike and its real successor is reported as added")
+		})
+	}
+	r.Floor("C19.ORDER", "sorts of the rename-candidate list", nSort, 1)
 	// a function can be recognised under a new name only through its topology, which is extracted from the SSA
 	// function a fingerprint result carries (shared with C16)
 	r.Under("C16.ENUM", "C19.HANDLE", func() { c16Handle(r) })
